@@ -51,6 +51,32 @@ def sync_coq_mirror():
         raise RuntimeError("rsync of the Coq tree failed: " + r.stderr.decode("utf8", "replace")[-500:])
 
 
+OUT = os.path.join(ROOT, "out")          # replay files, logs (git-ignored)
+EVID = os.path.join(ROOT, "evidence")
+GUARD = "uazu_stakker_verif"
+NCPU = os.cpu_count() or 4
+
+ENV_OFFLINE = {"CARGO_NET_OFFLINE": "true", "GOPROXY": "off", "PIP_NO_INDEX": "1"}
+
+FORBIDDEN = re.compile(
+    r"\b(Admitted|admit|Axiom|Axioms|Parameter|Parameters|Conjecture|Conjectures|Hypothesis|Hypotheses|Variable|Variables|"
+    r"Admit Obligations|bypass_check|Unset Guard Checking|Unset Positivity Checking|Unset Universe Checking|"
+    r"type-in-type|impredicative-set|native_compute)\b")
+# `Variable`/`Hypothesis` are allowed inside a Section only; lint() checks that separately.
+
+# Axioms of the Coq standard library that a theorem may depend on (each is named in the trusted base
+# whenever Print Assumptions reports it).  Anything else is a lint failure.
+ALLOWED_AXIOMS = {
+    "Coq.Logic.FunctionalExtensionality.functional_extensionality_dep",
+    "functional_extensionality_dep",
+    "Coq.Logic.ProofIrrelevance.proof_irrelevance",
+    "Coq.Logic.Classical_Prop.classic",
+    "Coq.Logic.Eqdep.Eq_rect_eq.eq_rect_eq",
+    "Coq.Logic.JMeq.JMeq_eq",
+}
+
+
+
 def log(msg):
     print(msg, flush=True)
 
